@@ -18,7 +18,8 @@ class C09:
                  "judged by a trace monitor over the time-stamped bus log (clearance, order, pacing, grants)")
     RULE = ("Hypothesis draws sessions as in C03 plus stack-vs-stack ones, with max_cmdt_packets 1..255 on both sides, "
             "minimum_tp_bam_dt_interval in {default, 10..190 ms}, minimum_tp_rts_cts_dt_interval in {None, 1..50 ms}, RTS limits "
-            "1..255, grants 1..limit and 0-3 holds from the reference responder, latencies 0..5 ms; the monitor checks: no "
+            "1..255, grants 1..limit and 0-3 holds from the reference responder, latencies 0..5 ms, and for J1939-22 broadcasts 0-3 further broadcast sessions of the same stack running at the same time "
+            "(frame writes taking 0..2 ms); the monitor checks: no "
             "data packet outside the window the last CTS cleared (none before the first CTS, none after a hold), in-order "
             "numbering, BAM spacing >= configured/default interval and <= max(200 ms, interval)+latency, connection-mode "
             "spacing >= the configured minimum between ALL consecutive data packets of a session, every CTS count <= "
